@@ -197,6 +197,8 @@ func modValue(v any, mod string) any {
 		return []any{v}
 	case "same":
 		return v
+	case "null":
+		return nil
 	}
 	return marker
 }
@@ -209,6 +211,9 @@ func modifier(mod string, count *int) func(any) (any, bool) {
 			return e, false
 		case "wrap":
 			return []any{e}, true
+		case "null":
+			// the new value is null: the location stays, also when it is a member of a map
+			return nil, true
 		}
 		return marker, true
 	}
@@ -883,7 +888,7 @@ func drawCase(t *rapid.T) Case {
 	cs.Path = jpx.DrawPath(t, o)
 	cs.Data = wx.Enc(data)
 	cs.Val = wx.Enc(rapid.SampledFrom([]any{"NEW", int64(42), nil, true, []any{int64(1)}, map[string]any{"n": int64(1)}, 2.5}).Draw(t, "val"))
-	cs.Mod = rapid.SampledFrom([]string{"marker", "marker", "same", "wrap"}).Draw(t, "mod")
+	cs.Mod = rapid.SampledFrom([]string{"marker", "marker", "same", "wrap", "null"}).Draw(t, "mod")
 	cs.Gen = rapid.IntRange(0, 2).Draw(t, "gen") == 0
 	cs.User = rapid.IntRange(0, 2).Draw(t, "user") == 0
 	return cs
